@@ -220,19 +220,20 @@ def param_names(fn):
     return names
 
 
-def add_contract(sp, clauses, ret_name="r"):
+def add_contract(sp, clauses, ret_name="r", tag=None):
     """R1: name the return value and attach requires/ensures/decreases clauses."""
     fn = sp.item
     ts = fn.toks
     po, pc, arrow = sig_parts(fn)
     body = ts[fn.body_open]
+    ctag = tag or ("ob:post:%s" % fn.name)
     if arrow is not None:
         first = ts[arrow + 1]
         last = ts[fn.body_open - 1]
         sp.before_tok(first, "(%s: " % ret_name, "sig")
-        sp.after_tok(last, ")\n    %s\n" % clauses.strip(), "contract")
+        sp.after_tok(last, ")\n    %s\n" % clauses.strip(), ctag)
     else:
-        sp.before_tok(body, "\n    %s\n" % clauses.strip(), "contract")
+        sp.before_tok(body, "\n    %s\n" % clauses.strip(), ctag)
 
 
 def add_attr(sp, attr, tag="attr"):
